@@ -208,7 +208,58 @@ fn sub_decoder(input: &[u8], st: &mut Stats) -> R {
     Ok(())
 }
 
+/// every sweep instruction with the nearest undeclared enumerant / undeclared mask bit /
+/// missing / surplus word: parse, load and Display of every error kind
+fn sub_negative(input: &[u8], st: &mut Stats) -> R {
+    let i = idx(input);
+    let cases = sweep::cases();
+    let Some(case) = cases.get(i as usize) else { return Ok(()) };
+    let Some((prelude, p)) = sweep::build(case, i * 8 + 3) else { return Ok(()) };
+    let g = golden();
+    let mut head = header_words((1, 2), 300);
+    for q in &prelude {
+        head.extend(q.words());
+    }
+    let w = p.words();
+    let mut variants: Vec<Vec<u32>> = vec![w.clone()];
+    if w.len() > 1 {
+        let mut v = w.clone();
+        v.pop();
+        v[0] = ((v.len() as u32) << 16) | p.opcode;
+        variants.push(v);
+    }
+    if let Some((k, val)) = case.force.last() {
+        if let Some(ge) = g.enums.get(&format!("{:?}", k)) {
+            if let Some(pos) = w.iter().enumerate().skip(1).find(|(_, x)| **x == *val).map(|(i, _)| i) {
+                let mut v = w.clone();
+                if ge.is_mask {
+                    if let Some(b) = (0..32).map(|b| 1u32 << b).find(|b| ge.all_bits & b == 0) {
+                        v[pos] |= b;
+                    }
+                } else {
+                    let mut x = val.wrapping_add(1);
+                    while ge.value_set.contains(&x) {
+                        x = x.wrapping_add(1);
+                    }
+                    v[pos] = x;
+                }
+                variants.push(v);
+            }
+        }
+    }
+    for v in variants {
+        let mut bin = head.clone();
+        bin.extend(&v);
+        let bytes = words_to_bytes(&bin);
+        st.evaluations += 1;
+        exercise(&bytes, st, &|| format!("negative variant of {}", show_inst(&p.inst())))?;
+    }
+    st.evaluations -= 1;
+    Ok(())
+}
+
 pub const SUBS: &[Sub] = &[
+    Sub { name: "negative-sweep", f: sub_negative },
     Sub { name: "embedded", f: sub_embedded },
     Sub { name: "modules", f: sub_modules },
     Sub { name: "junk", f: sub_junk },
@@ -218,11 +269,12 @@ pub const SUBS: &[Sub] = &[
 
 pub fn run(ctx: &Ctx) {
     run_regress(ctx, SUBS);
-    drive_enum(ctx, &SUBS[0], golden().core.len() as u64 * 5);
-    drive_random(ctx, &SUBS[1], ctx.n(30_000, 15_000_000), 1200);
-    drive_random(ctx, &SUBS[2], ctx.n(100_000, 50_000_000), 400);
-    drive_random(ctx, &SUBS[3], ctx.n(50_000, 20_000_000), 200);
-    drive_random(ctx, &SUBS[4], ctx.n(100_000, 50_000_000), 300);
+    drive_enum(ctx, &SUBS[0], sweep::cases().len() as u64);
+    drive_enum(ctx, &SUBS[1], golden().core.len() as u64 * 5);
+    drive_random(ctx, &SUBS[2], ctx.n(30_000, 15_000_000), 1200);
+    drive_random(ctx, &SUBS[3], ctx.n(100_000, 50_000_000), 400);
+    drive_random(ctx, &SUBS[4], ctx.n(50_000, 20_000_000), 200);
+    drive_random(ctx, &SUBS[5], ctx.n(100_000, 50_000_000), 300);
     if !ctx.quick() && !ctx.failed() {
         crate::fuzzing::drive_fuzz(ctx, "bytes", 1_000_000);
         crate::fuzzing::drive_fuzz(ctx, "modules", 300_000);
